@@ -82,6 +82,63 @@ def monitor(op, res):
                     return "id (%d,%d) is not earlier than any deleteBefore and inside the key's range, but Sign/Verify gives '%s'" % (b, o, tok)
     return None
 
+def parse_p(op):
+    f = op.split()
+    if len(f) < 6 or f[0] != "pcase":
+        return None
+    try:
+        fv, lv, dil, wr0, wr1 = (int(x) for x in f[1:6])
+        steps = [("R", None) if t == "R" else ("a", int(t[1:])) for t in f[6:] if t == "R" or t[0] == "a"]
+    except ValueError:
+        return None
+    if len(steps) != len(f) - 6 or dil == 0:
+        return None
+    return fv, lv, dil, wr0, wr1, steps
+
+def monitor_p(op, res):
+    """persistence layer, implementation alone: after DeleteOldKeys(r) was acknowledged neither the running secrets nor
+    the ones a restart loads from the part-key DB give a verifying signature for a round < r; both sign every later
+    round of the validity range; both sign the same set."""
+    p = parse_p(op)
+    if p is None:
+        return None
+    fv, lv, dil, wr0, wr1, steps = p
+    if res.startswith("PANIC"):
+        return "panic: " + res[:200]
+    parts = res.split(" | ")
+    if len(parts) != 2 or any(len(x.split()) != 6 for x in parts):
+        return None          # ERR … lines: not a property verdict (they still mismatch the model)
+    if lv + 1 >= M64:
+        return None
+    advs = [r for k, r in steps if k == "a"]
+    wins = (("in-memory", parts[0].split()[5]), ("restored-after-restart", parts[1].split()[5]))
+    for i, r in enumerate(range(wr0, wr1 + 1)):
+        for who, w in wins:
+            if i >= len(w):
+                return "malformed window"
+            tok = w[i]
+            if tok == "w":
+                return "%s secrets: the zero signature verifies for round %d" % (who, r)
+            past = [a for a in advs if r < a]
+            if past:
+                if tok in "ob":
+                    return "%s secrets still produce a verifying signature for round %d although DeleteOldKeys(%d) was acknowledged" % (who, r, past[0])
+            elif fv <= r <= lv and tok not in "ob":
+                return "%s secrets cannot sign round %d (valid range %d..%d, no advance beyond it): '%s'" % (who, r, fv, lv, tok)
+    if wins[0][1] != wins[1][1]:
+        return "restored secrets sign a different set of rounds than the in-memory ones: %s vs %s" % (wins[1][1], wins[0][1])
+    return None
+
+def trivial_p(op):
+    p = parse_p(op)
+    return p is None or all(k == "R" for k, _ in p[5])
+
+def kind_p(op):
+    p = parse_p(op)
+    if p is None:
+        return "malformed"
+    return "persist-len-%d%s" % (min(len(p[5]), 9), "+restart" if any(k == "R" for k, _ in p[5]) else "")
+
 def trivial(op):
     p = parse(op)
     if p is None:
@@ -100,6 +157,7 @@ def run(ctx, replay_ops=None):
         "no uint64 wrap of batch numbers: startBatch+numBatches < 2^64 and current.Batch+1 < 2^64 for every deleteBefore (hypotheses of the theorems; the wrap behaviour itself is modelled and tied, see wrap_is_noop)",
         "zeroisation of freed Go memory is out of scope (the code carries a TODO: slices are re-sliced, old backing arrays are left to the GC)",
         "the master secret is discarded at the end of GenerateOneTimeSignatureSecretsRNG (never stored in the struct)",
+        "persistence: only ACKNOWLEDGED advances are in scope (DeleteOldKeys' channel has yielded nil); a crash between the in-memory deletion and the DB commit leaves the older secrets on disk by design; old sqlite pages / WAL contents are out of scope like freed memory",
     ]
     anchors(ctx)
     proved = ctx.prove(["AlgoVerif.Props.C36"])
@@ -116,6 +174,25 @@ def run(ctx, replay_ops=None):
                        "in the exhaustive part, below depth 3 (quick) / 4 (thorough) a node whose retained key material is byte-identical to its parent's (no-op deletion) "
                        "reuses the parent's Sign/Verify window instead of signing again, and the forging adversary (every retained secret tried on every identifier) runs "
                        "only above that depth and in all random/directed cases; trivial = no batches or every op before the key's range; distinct = distinct op lines")
+    rp_core = rp_persist = None
+    if replay_ops is not None:
+        rp_persist = [o for o in replay_ops if o.startswith("pcase")]
+        rp_core = [o for o in replay_ops if not o.startswith("pcase")]
+    run_core = replay_ops is None or bool(rp_core)
+    run_persist = replay_ops is None or bool(rp_persist)
+    if run_persist:
+        ctx.cov["rule"] += ("; persistence layer: real PersistedParticipation on a sqlite file in a temp dir, histories of acknowledged DeleteOldKeys(r) and "
+                            "restarts (accessor reopened + RestoreParticipation), ALL histories of length <=3 (quick) / <=4 (thorough) over 12 advance targets + "
+                            "restart for 3 batches x dilution 3 and over 7+restart for 3 batches x dilution 2, round-by-round advance with restarts, seeded random "
+                            "histories; after each history every round of a window is signed+verified with the running AND with freshly restored secrets")
+        common.correspondence(ctx, pkg="./data/account", test="TestVerifC36Persist", name="c36p", drivers=[("c36", [], "model")],
+                              trivial=trivial_p, kind_of=kind_p, env=env, timeout=3000 if ctx.tier == "thorough" else 1500,
+                              model_is_spec=False, monitor=monitor_p,
+                              what="real PersistedParticipation (in-memory / restored secrets) differs from the node model (disk := mem at the acknowledged point, restart: mem := disk)",
+                              replay_ops=rp_persist)
+    if not run_core:
+        return
+    replay_ops = rp_core
     res = common.correspondence(ctx, pkg="./crypto", test="TestVerifC36", name="c36", drivers=[("c36", [], "model")],
                                 trivial=trivial, kind_of=kind_of, env=env, timeout=3400 if ctx.tier == "thorough" else 1500,
                                 model_is_spec=False, monitor=monitor,
